@@ -19,7 +19,7 @@ pub fn property() -> Property {
         parts: vec![
             Part {
                 name: "movesets",
-                quick: 40_000,
+                quick: 120_000,
                 thorough: 4_000_000,
                 single_shard: false, supplementary: false,
                 run: |cfg| run_part(cfg, gen::raw_pos(80), |r| PosCase { fen: gen::position(r, ClockDomain::Unmake).fen() }, check_movesets),
@@ -27,7 +27,7 @@ pub fn property() -> Property {
             },
             Part {
                 name: "along_games",
-                quick: 3_000,
+                quick: 6_000,
                 thorough: 150_000,
                 single_shard: false, supplementary: false,
                 run: |cfg| {
@@ -47,7 +47,7 @@ pub fn property() -> Property {
             },
             Part {
                 name: "perft",
-                quick: 600,
+                quick: 1_500,
                 thorough: 40_000,
                 single_shard: false, supplementary: false,
                 run: |cfg| run_part(cfg, gen::raw_pos(60), |r| PosCase { fen: gen::position(r, ClockDomain::Unmake).fen() }, check_perft),
